@@ -153,7 +153,7 @@ def replay(args):
         emit({"ev": "call_end", "raised": raised})
         fr, fdg, fsig = fresh_result(Dnow, [t[1:] if label == "unrelated" else t for t in tops])
         calls.append({"tid": tid, "seq": len(calls) + 1, "label": label, "tainted": tainted, "raised": raised, "sig": sig, "digest": dg,
-                      "fresh_raised": fr, "fresh_sig": fsig, "fresh_digest": fdg, "tops": tops})
+                      "fresh_raised": fr, "fresh_sig": fsig, "fresh_digest": fdg, "tops": tops, "full": ET.LAST["full"] if raised else ""})
 
     ch = ET.SHAPES[shape]
     call("first", [first_top], mods, D, True, ch)
@@ -226,10 +226,10 @@ def gen_case(args):
             mod = fn()
             pkg = h.to_proto(mod)
             calls.append({"tid": tid, "seq": len(calls) + 1, "label": label, "tainted": tainted, "raised": False, "sig": "", "digest": str(sorted(m.name.split(".")[-1] for m in pkg.modules)),
-                          "fresh_raised": False, "fresh_sig": "", "fresh_digest": "", "tops": []})
+                          "fresh_raised": False, "fresh_sig": "", "fresh_digest": "", "tops": [], "full": ""})
         except Exception as ex:
             calls.append({"tid": tid, "seq": len(calls) + 1, "label": label, "tainted": tainted, "raised": True, "sig": f"{type(ex).__name__}: {str(ex)[:100]}", "digest": "",
-                          "fresh_raised": False, "fresh_sig": "", "fresh_digest": "", "tops": []})
+                          "fresh_raised": False, "fresh_sig": "", "fresh_digest": "", "tops": [], "full": ""})
     target = (lambda: Inner(a=1)) if variant == "inner" else (lambda: Outer(a=1))
     one("first", target)
     one("unrelated", lambda: Inner(a=2) if variant != "inner" else Outer(a=2), tainted=False)
@@ -282,7 +282,7 @@ def gen_caught_case(args):
 
     def one(label, fn, fresh_raises, tainted=True):
         ev = {"tid": tid, "seq": len(calls) + 1, "label": label, "tainted": tainted, "raised": False, "sig": "", "digest": "", "tops": [],
-              "fresh_raised": fresh_raises, "fresh_sig": "ValueError: fancy cell unavailable" if fresh_raises else "", "fresh_digest": ""}
+              "fresh_raised": fresh_raises, "fresh_sig": "ValueError: fancy cell unavailable" if fresh_raises else "", "fresh_digest": "", "full": ""}
         try:
             mod = fn()
             pkg = h.to_proto(mod)
